@@ -333,6 +333,12 @@ CONVERSION_WITNESSES = [
     ("change MIN_ALIGN on a shared borrow",
      f"type Hi = {S}::WithMinimumAlignment<8>;\nlet b: Bump = Bump::new();\nlet r: &Bump<Global, Hi> = b.borrow_with_settings();\ntouch(r);",
      f"let b: Bump = Bump::new();\nlet r: &Bump<Global, BumpSettings> = b.borrow_with_settings();\ntouch(r);"),
+    ("lower MIN_ALIGN on a shared borrow",
+     f"type Hi = {S}::WithMinimumAlignment<8>; type Lo = {S}::WithMinimumAlignment<1>;\nlet b: Bump<Global, Hi> = Bump::new();\nlet r: &Bump<Global, Lo> = b.borrow_with_settings();\ntouch(r);",
+     f"type Hi = {S}::WithMinimumAlignment<8>;\nlet b: Bump<Global, Hi> = Bump::new();\nlet r: &Bump<Global, Hi> = b.borrow_with_settings();\ntouch(r);"),
+    ("flip the bump direction on a mutable borrow",
+     f"type Down = {S}::WithUp<false>;\nlet mut b: Bump = Bump::new();\nlet d: &mut Bump<Global, Down> = b.borrow_mut_with_settings();\ntouch(d);",
+     f"type Same = {S}::WithUp<true>;\nlet mut b: Bump = Bump::new();\nlet d: &mut Bump<Global, Same> = b.borrow_mut_with_settings();\ntouch(d);"),
     ("lower MIN_ALIGN on a mutable borrow",
      f"type Hi = {S}::WithMinimumAlignment<8>; type Lo = {S}::WithMinimumAlignment<1>;\nlet mut b: Bump<Global, Hi> = Bump::new();\nlet r: &mut Bump<Global, Lo> = b.borrow_mut_with_settings();\ntouch(r);",
      f"type Hi = {S}::WithMinimumAlignment<8>; type Lo = {S}::WithMinimumAlignment<1>;\nlet mut b: Bump<Global, Lo> = Bump::new();\nlet r: &mut Bump<Global, Hi> = b.borrow_mut_with_settings();\ntouch(r);"),
